@@ -283,12 +283,15 @@ def _gen_op(rng, slot, model: GLModel):
             members = list(model.members(lead)) + extra
             rng.shuffle(members)
             items.append([lead, members])
-        if pool and rng.random() < 0.6:
+        for _ in range(rng.choice([0, 1, 1, 2, 3])):  # new leaders, appended in the order given
+            if not pool:
+                break
             key = pool.pop()
             extra = [pool.pop() for _ in range(min(len(pool), rng.randint(0, 2)))]
             members = [key] + extra
             rng.shuffle(members)
             items.append([key, members])
+        rng.shuffle(items)
         op["items"] = items
     elif kind == "remove":
         op["v"] = rng.choice(leaders)
@@ -492,7 +495,17 @@ def execute(spec: dict) -> dict:
     import_autocarver()
     from AutoCarver.discretizers.utils.grouped_list import GroupedList  # pylint: disable=C0415
 
+    from . import seams  # pylint: disable=C0415
+
+    seams.install()
     stats = Stats()
+    # GroupedList iterates no set today; if it ever does, the order is the scheduler's
+    sched = seams.Scheduler(mode="prng", rng=stream(spec.get("seed"), "glsim", spec.get("idx"), "sched"), stats=stats)
+    with seams.scheduling(sched):
+        return _execute(spec, GroupedList, stats)
+
+
+def _execute(spec, GroupedList, stats):  # pylint: disable=C0103
     log = EventLog(spec.get("seed"), ["glsim", spec.get("idx")])
     lists: list = [None] * MAX_SLOTS
     models: list = [None] * MAX_SLOTS
